@@ -54,8 +54,10 @@ def rand_half(rng, mode=None):
     ta, sa, ae = rand_byte(rng), rand_byte(rng), rand_byte(rng)
     phys = func = None
     if m in (2, 6) and rng.random() < 0.3:
-        phys = rng.randrange(0, 1 << 29)
-        func = rng.randrange(0, 1 << 29)
+        # custom identifier bases (only bits 28-16 count), incl. the edges: 0, a value whose masked form is 0, all ones
+        edge = [0, 0xFFFF, 0x1FFF0000, 0x10000, 0x1FFFFFFF]
+        phys = rng.choice(edge) if rng.random() < 0.3 else rng.randrange(0, 1 << 29)
+        func = rng.choice(edge) if rng.random() < 0.3 else rng.randrange(0, 1 << 29)
     d = {'mode': m}
     if m in (0, 1):
         tx = dict(d, txid=txid)
